@@ -5,7 +5,8 @@ use islamic_prayer_times::*;
 use serde_json::{json, Value};
 
 pub const OFFSETS: [f64; 6] = [-90.0, -30.0, -1.0, 1.0, 30.0, 90.0];
-pub const INTERVALS: [f64; 4] = [1.0, 45.0, 90.0, 120.0];
+/// incl. values that are special only to the code: 1.5 (the default Imsaak lead), 0.5
+pub const INTERVALS: [f64; 6] = [0.5, 1.0, 1.5, 45.0, 90.0, 120.0];
 pub const WEATHERS: [(f64, f64); 5] = [(100.0, -90.0), (1050.0, 57.0), (1050.0, -90.0), (100.0, 57.0), (1010.0, 14.0)];
 
 fn call(p: &Params, site: Site, date: NaiveDate, w: Option<(f64, f64)>, l: &mut Local) -> R {
@@ -181,18 +182,21 @@ pub fn explore(ctx: &Ctx) {
     crate::history::explore(ctx, "params", &crate::history::alphabet_params(), 3);
     crate::history::explore(ctx, "place_time", &crate::history::alphabet_place_time(), 2);
     crate::history::explore(ctx, "policy", &crate::history::alphabet_policy(), 2);
-    ctx.rule("each (site, date, method, policy) is one case consisting of the base call and every single-parameter perturbation of it (42 minute offsets, 12 intervals, other school, +-1 deg Fajr/Isha angle, 5 weather points); every case is distinct and non-trivial (all perturbation clauses judged)");
+    ctx.rule("each (site, date, method, policy) is one case consisting of the base call and every single-parameter perturbation of it (42 minute offsets, 18 intervals, other school, +-1 deg Fajr/Isha angle, 5 weather points); every case is distinct and non-trivial (all perturbation clauses judged)");
     ctx.assume("angle/school/weather locality judged under policy None, and under the default policy only when both runs have no invalid/extreme entry (a fallback legitimately couples Fajr and Isha)");
     ctx.assume("exact equality for untouched entries; +-1 s for shifted ones (truncation)");
     ctx.assume("history independence: every call sequence up to depth 3 over the alphabets in coverage.alphabets.history_* is run on a fresh thread and every result compared with the same call made alone in a fresh process");
-    let lats = [0.0, 21.4, -21.4, 39.0, -39.0, 50.0, -50.0, 62.0, -62.0];
+    let lats: [f64; 9] = [0.0, 21.4, -21.4, 39.0, -39.0, 50.0, -50.0, 62.0, -62.0];
     let zs: Vec<(f64, f64)> = if quick { vec![(39.8233, 3.0)] } else { vec![(39.8233, 3.0), (-100.0, -7.0)] };
     let dates: Vec<NaiveDate> = if quick { dates_of_years(&[2024]).into_iter().step_by(3).collect() } else { dates_of_years(&YEARS6) };
     let mut jobs = vec![];
     for &lat in &lats {
         for &(lon, gmt) in &zs {
             for m in METHODS9 {
-                for pol in [ExtremeLatitudeMethod::None, ExtremeLatitudeMethod::NearestGoodDayFajrIshaInvalid, ExtremeLatitudeMethod::SeventhOfNightFajrIshaAlways] {
+                for pol in [ExtremeLatitudeMethod::None, ExtremeLatitudeMethod::NearestGoodDayFajrIshaInvalid, ExtremeLatitudeMethod::SeventhOfNightFajrIshaAlways, ExtremeLatitudeMethod::NearestGoodDayAllPrayersAlways] {
+                    if pol == ExtremeLatitudeMethod::NearestGoodDayAllPrayersAlways && (quick && !matches!(m, Method::UmmAlQurra | Method::Mwl | Method::FixedIsha) || (lat as f64).abs() > 58.0) {
+                        continue;
+                    }
                     jobs.push((Site::new(lat, lon, 0.0, gmt), params(m, pol, RoundSeconds::None)));
                 }
             }
@@ -202,7 +206,7 @@ pub fn explore(ctx: &Ctx) {
     ctx.alphabet("lats", json!(lats));
     ctx.alphabet("zones", json!(zs));
     ctx.alphabet("methods", json!(9));
-    ctx.alphabet("policies", json!(["None", "NearestGoodDayFajrIshaInvalid (default)", "SeventhOfNightFajrIshaAlways"]));
+    ctx.alphabet("policies", json!(["None", "NearestGoodDayFajrIshaInvalid (default)", "SeventhOfNightFajrIshaAlways", "NearestGoodDayAllPrayersAlways (|lat| <= 58)"]));
     ctx.alphabet("dates", json!({"count": dates.len(), "rule": if quick { "every 3rd day of 2024" } else { "all days of 1600,1900,2000,2023,2024,2399" }}));
     ctx.alphabet("perturbations", json!({"minute_offsets": OFFSETS, "keys": 7, "intervals": INTERVALS, "angle_deltas": [-1, 1], "weather_points": WEATHERS}));
     par_jobs(ctx, &jobs, |(site, p), l| {
